@@ -26,6 +26,9 @@ type Doc struct {
 	ID      [2]string // hex strings without <>
 	Extra   string    // extra trailer entries
 	Eol     string
+	// Override replaces computed numbers of the xref-stream serialisation by literal text:
+	// keys Size, Index (array text), N, First.
+	Override map[string]string
 }
 
 func New() *Doc { return &Doc{objs: map[int]*object{}, next: 1, Version: "1.7", Eol: "\n"} }
